@@ -198,6 +198,22 @@ def _rules(ck, prog, cfg):
     ck.check(len(pushes) >= 1, "R19.5", "route_selective:push" + _tag(cfg), "no push into the routing table", rs.where())
     if len(inner) == 1 and len(outer) == 1:
         ih, oh = inner[0], outer[0]
+        # the per-target loop walks the whole owner list: nothing but into_iter/iter/copied/cloned between get_gossip_targets and next()
+        ch = lib2.iter_chain(rs, rs.term(ih)["args"][0])
+        names = [n for n, _ in ch]
+        src_ok = False
+        if ch:
+            last = ch[-1][1]
+            if is_callee(last, r"get_gossip_targets$"):
+                src_ok = True
+            elif last["args"]:
+                s0 = src_of_operand(rs, last["args"][0], through_calls=TRANSPARENT)
+                src_ok = s0.kind == "call" and is_callee(s0.term, r"get_gossip_targets$")
+        cut = [n for n in names if n not in ("into_iter", "iter", "copied", "cloned", "get_gossip_targets", "by_ref", "deref", "as_slice")]
+        ck.check(src_ok and not cut, "R19.5", "route_selective:walks-every-owner" + _tag(cfg),
+                 "the per-target loop does not walk the whole list returned by get_gossip_targets (%s): an owner of the key is never sent the delta"
+                 % ("adaptors %s" % cut if cut else "iterator source is not the owner list"), rs.where(rs.term(ih)["ln"]),
+                 detail="for target in get_gossip_targets(..): chain %s" % list(reversed(names)))
         # every switch inside the inner loop body that can skip the push must send control to the inner head
         for sb in sorted(rs.reachable_blocks()):
             if rs.term(sb)["k"] != "switch" or sb not in rs.reach([ih]) or ih not in rs.reach([sb]):
